@@ -364,6 +364,13 @@ func originThroughHelper(fn *core.FuncInfo, call *ast.CallExpr, idx int, depth i
 		if cl, ok := ast.Unparen(e).(*ast.CompositeLit); ok && len(cl.Elts) == 0 {
 			return true // zero value on an error path
 		}
+		if mc, ok := ast.Unparen(e).(*ast.CallExpr); ok {
+			if id, ok := mc.Fun.(*ast.Ident); ok && id.Name == "make" {
+				if _, isB := h.Pkg.TypesInfo.Uses[id].(*types.Builtin); isB {
+					return true // a fresh empty map / slice: the "nothing there" answer
+				}
+			}
+		}
 		if bl, ok := ast.Unparen(e).(*ast.BasicLit); ok && (bl.Value == `""` || bl.Value == "0") && len(rs.Results) > 1 && idx != len(rs.Results)-1 {
 			// zero value next to `false` / a non-nil error: the "nothing found" return
 			last := ast.Unparen(rs.Results[len(rs.Results)-1])
